@@ -1391,3 +1391,43 @@ def m_fn_call(eng, call, args):
         fv = deref_value(eng, call["state"], fv)
     r = eng.invoke_value(call, fv, cargs, tag="#call")
     return r
+
+
+@model("base64::Engine::decode_slice", "base64::Engine::decode_vec")
+def m_b64_decode_slice(eng, call, args):
+    """checked variants: report a too-small output buffer / invalid input through Err"""
+    e = val(eng, call, args[0])
+    a = args[1]
+    v = val(eng, call, a) if a.op in ("ref", "refv", "refo") else a
+    ok = mk("b64_valid", e, v)
+    fits = mk("b64_fits", v, args[2] if len(args) > 2 else mk("unit"))
+    if len(args) > 2:
+        old = val(eng, call, args[2])
+        eng.assign_through(call, args[2], mk("b64dec_into", e, v, old))
+    return two_way("std::result::Result", [
+        (0, "Ok", [mk("b64dec_len", e, v)], [(ok, "eq", 1), (fits, "eq", 1)]),
+        (1, "Err", [mk("b64_error", v)], []),
+    ])
+
+
+@model("base64::Engine::decode_slice_unchecked")
+def m_b64_decode_slice_unchecked(eng, call, args):
+    """base64 0.22 documents: panics if the output slice is too small for the decoded input"""
+    e = val(eng, call, args[0])
+    a = args[1]
+    v = val(eng, call, a) if a.op in ("ref", "refv", "refo") else a
+    out = val(eng, call, args[2])
+    call["pre"] = ("le", mk("b64_decoded_len_estimate", v), eng.length(call["state"], out))
+    eng.assign_through(call, args[2], mk("b64dec_into", e, v, out))
+    ok = mk("b64_valid", e, v)
+    return two_way("std::result::Result", [
+        (0, "Ok", [mk("b64dec_len", e, v)], [(ok, "eq", 1)]),
+        (1, "Err", [mk("b64_error", v)], [(ok, "eq", 0)]),
+    ])
+
+
+@model("serde::Deserialize::deserialize", "serde::Deserializer::deserialize_str", "serde::Deserializer::deserialize_bytes")
+def m_serde_deserialize(eng, call, args):
+    """serde deserializers report malformed input through Err (trusted: serde / the format crate)"""
+    v = mk("serde_de", *args)
+    return as_enum(v, "std::result::Result", RES)
